@@ -612,7 +612,10 @@ def list_by_int(left, right, engine):
         yaql> [1, 2] * 2
         [1, 2, 1, 2]
     """
-    utils.limit_memory_usage(engine, (-right + 1, []), (right, left))
+    # size of the product: `right` payloads plus one header of the same
+    # sequence type (an empty list is larger than an empty tuple, which made
+    # the estimate for short tuples constant or even negative)
+    utils.limit_memory_usage(engine, (-right + 1, left[:0]), (right, left))
     return left * right
 
 
